@@ -1254,3 +1254,191 @@ def _c12_static_scan() -> dict:
             if nm in names and nm.isupper() or (nm in names and nm == "registry"):
                 mutations.append(f"{p.relative_to(root.parent)}:{n.lineno}:{nm}")
     return dict(bindings=bindings, mutations=mutations)
+
+
+# ---------------------------------------------------------------------------------------------
+# C18 / C20 (writer under stress; the Lean referee judges the real bytes)
+# ---------------------------------------------------------------------------------------------
+
+def _overflowing_statement(r, g, cls: str, which: str, k: int):
+    """A statement that needs `k` distinct entries of table `which` (prefix / name / datatype)."""
+    if which == "datatype":
+        dts = r.sample(gen.DTS[:-1] + ["urn:dt:3", "urn:dt:4", "urn:dt:5"], k)
+        lits = [Literal(r.choice(gen.LEX), datatype=d) for d in dts]
+        terms = (lits + [g.iri(), g.iri(), g.iri()])[:3]
+        if k >= 3:
+            terms = lits[:3]
+        elif k == 2:
+            terms = [lits[0], g.iri(), lits[1]]
+        st = list(terms)
+    elif which == "prefix":
+        pf = r.sample(gen.PREFIXES[:4] + ["http://p5/", "http://p6/", "http://p7#", "http://p8/"], min(k, 8))
+        iris = [IRI(p + r.choice(["a", "b", "c"])) for p in pf]
+        st = _pack_iris(iris)
+    else:
+        iris = [IRI("http://n/" + f"name{j}") for j in r.sample(range(60), k)]
+        st = _pack_iris(iris)
+    if cls != "T":
+        st = st + [g.term("g")] if len(st) == 3 else st
+    return (Quad if cls != "T" else Triple)(*st[: (4 if cls != "T" else 3)])
+
+
+def _pack_iris(iris):
+    """Put any number of IRIs into s/p/o using nested quoted triples."""
+    iris = list(iris)
+    while len(iris) < 3:
+        iris.append(iris[-1])
+    if len(iris) == 3:
+        return iris
+
+    def build(xs):
+        if len(xs) <= 3:
+            xs = xs + [xs[-1]] * (3 - len(xs))
+            return Triple(*xs)
+        third = max(1, len(xs) // 3)
+        a, b, c = xs[:third], xs[third:2 * third], xs[2 * third:]
+        mk = lambda part: part[0] if len(part) == 1 else build(part)  # noqa: E731
+        return Triple(mk(a), mk(b), mk(c))
+
+    t = build(iris)
+    return [t.s, t.p, t.o]
+
+
+def check_C18(ctx: Ctx) -> None:
+    r = ctx.rng("overflow")
+    cases = []
+    for i in range(ctx.n(300, 3000)):
+        cls = r.choice("TQG")
+        which = r.choice(["prefix", "datatype", "name"])
+        if which == "name":
+            pn, pp, pd = r.choice([8, 9, 12, 16, 26]), r.choice([0, 4, 16]), 4
+            k = pn + r.choice([-1, 0, 1, 2, 3])
+        elif which == "prefix":
+            pn, pp, pd = 16, r.choice([1, 2, 3]), 4
+            k = pp + r.choice([0, 1, 1, 2, 3])
+        else:
+            pn, pp, pd = 16, 8, r.choice([1, 2, 3])
+            k = min(3, pd + r.choice([0, 1, 1, 2]))
+        o = Opts(fs=r.choice([1, 3, 250]), lt=0, gen=True, star=True, delim=r.random() < 0.8, pn=pn, pp=pp, pd=pd)
+        g = gen.G(r, typed=True, n_prefixes=2, n_names=4)
+        pre = [s for s in g.statements(r.randint(0, 3), cls != "T") if gen.fits([s], pn, pp, pd)]
+        big = _overflowing_statement(r, g, cls, which, max(1, k))
+        post = [s for s in g.statements(r.randint(0, 3), cls != "T") if gen.fits([s], pn, pp, pd)]
+        stmts = pre + [big] + post
+        resp, b = impl.run_ser_frames(cls, o, stmts, is_sink=False)
+        req = f"ser {cls} frames {o.token()} gen:{stmts_text(stmts)}"
+        cases.append(dict(cls=cls, o=o, stmts=stmts, req=req, resp=resp, bytes=b, which=which,
+                          overflows=not gen.fits([big], pn, pp, pd)))
+    model = ctx.corr("SER", [c["req"] for c in cases], [c["resp"] for c in cases])
+    todo = [c for c in cases if c["resp"].startswith("ok ") and c["resp"].endswith(" end") and c["bytes"]]
+    got = __import__("common").run_driver([spec_line(c["bytes"], c["o"].delim) for c in todo])
+    model_by_req = {c["req"]: m for c, m in zip(cases, model)}
+    for c in cases:
+        ctx.dist[f"table:{c['which']}"] += 1
+        ctx.dist["overflowing" if c["overflows"] else "fitting"] += 1
+        ctx.case((c["req"]), c["overflows"], sample=dict(table=c["which"], preset=[c["o"].pn, c["o"].pp, c["o"].pd], statements=stmts_text(c["stmts"])[:300]))
+        if not (c["resp"].startswith("ok ") and c["resp"].endswith(" end")):
+            ctx.dist["writer_raised"] += 1
+    for c, line in zip(todo, got):
+        verdict, evs, _ = parse_spec_response(line)
+        want_st = expected_events(c["stmts"], "T" if c["cls"] == "T" else "Q")
+        want = "_" if not want_st else " ".join("S" + stmt_text(s) for s in want_st)
+        if verdict == "ok" and evs == want:
+            continue
+        # known finding: the model predicts exactly these bytes and the statement needs more distinct entries than slots
+        sig = "C18-in-statement-eviction" if (c["overflows"] and model_by_req[c["req"]] == c["resp"]) else None
+        ctx.fail(f"written file decodes to different data ({verdict})",
+                 dict(request=c["req"], referee=line[:1200], want=want[:1200]), known=sig)
+
+
+def check_C20(ctx: Ctx) -> None:
+    r = ctx.rng("reject")
+    reqs, resp, metas = [], [], []
+    for i in range(ctx.n(300, 3000)):
+        cls = r.choice("TQG")
+        pd = r.choice([0, 4, 4])
+        o = Opts(fs=r.choice([1, 2, 5, 250]), lt=0, gen=True, star=True, delim=True, pn=16, pp=r.choice([0, 4]), pd=pd)
+        g = gen.G(r, typed=pd != 0, n_prefixes=3, n_names=5)
+        n = r.randint(2, 8)
+        ops, accepted = [("enroll",)], []
+        prev = None
+        for j in range(n):
+            st = list(g.quad(prev) if cls == "Q" else g.triple(prev))
+            bad = r.random() < 0.35
+            cause = None
+            if bad:
+                cause = r.choice(["unsupported", "typed_disabled", "short"]) if pd == 0 else r.choice(["unsupported", "short", "nested"])
+                slot = r.randrange(len(st))
+                if cause == "unsupported":
+                    st[slot] = UNSUPPORTED
+                elif cause == "typed_disabled":
+                    slot = r.randrange(3)
+                    st[slot] = Literal("1", datatype="http://dt.example/t1")
+                elif cause == "nested":
+                    slot = r.randrange(3)
+                    st[slot] = Triple(g.iri(), g.iri(), Triple(g.iri(), UNSUPPORTED, g.iri()))
+                else:
+                    st = st[: r.randrange(0, len(st))]
+            if cls == "G":
+                gid = g.term("g") if not (bad and cause == "unsupported" and r.random() < 0.3) else UNSUPPORTED
+                ops.append(("g", gid, [tuple(st)]))
+                acc = [Quad(*st, gid)] if (not bad and gid is not UNSUPPORTED and len(st) == 3) else None
+            else:
+                ops.append(("q" if cls == "Q" else "t", tuple(st)))
+                acc = [(Quad if cls == "Q" else Triple)(*st)] if not bad else None
+            if r.random() < 0.2:
+                ops.append(("flush",))
+            if acc:
+                prev = acc[0]
+            metas_acc = acc
+            accepted.append(metas_acc)
+        ops.append(("flush",))
+        line = impl.run_step(cls, o, ops)
+        reqs.append(f"step {cls} {o.token()} " + " ".join(impl.step_op_token(op) for op in ops))
+        resp.append(line)
+        metas.append((cls, o, ops, accepted))
+    # the model marks a rejection that changed encoder state with '~' (the real code cannot tell)
+    import common
+    model_raw = common.run_driver(reqs)
+    for q, a, mraw in zip(reqs, resp, model_raw):
+        m = mraw.replace("~", "")
+        ctx.corr_checked += 1
+        if a != m:
+            ctx.dist["disagree:SERSTEP"] += 1
+            if len(ctx.disagreements) < 20:
+                ctx.disagreements.append(dict(suite="SERSTEP", request=q[:4000], impl=a[:4000], model=m[:4000]))
+    spec_reqs, todo = [], []
+    for (cls, o, ops, accepted), line, mraw, req in zip(metas, resp, model_raw, reqs):
+        toks = line.split(" ")[:-1]
+        frames = b"".join(bytes.fromhex(f[1:]) for t in toks for f in t.split("!")[0].split("+") if f.startswith("F"))
+        n_rej = sum(1 for t in toks if "!" in t)
+        ctx.case(req, n_rej > 0, sample=dict(cls=cls, ops=[impl.step_op_token(op)[:60] for op in ops][:8], outcome=line[-80:]))
+        ctx.dist[f"rejections:{min(n_rej, 3)}"] += 1
+        spec_reqs.append(spec_line(frames, True))
+        todo.append((cls, o, ops, accepted, line, mraw, req, frames))
+    got = common.run_driver(spec_reqs)
+    for (cls, o, ops, accepted, line, mraw, req, frames), sline in zip(todo, got):
+        toks = line.split(" ")[:-1]
+        # which data ops were accepted by the real code
+        data_ops = [op for op in ops if op[0] in ("t", "q", "g")]
+        data_toks = [t for op, t in zip(ops, toks) if op[0] in ("t", "q", "g")]
+        acc_real = []
+        first_rej = None
+        for idx, (op, t, acc) in enumerate(zip(data_ops, data_toks, accepted)):
+            if "!" in t:
+                if first_rej is None:
+                    first_rej = idx
+            elif acc:
+                acc_real += acc
+            else:
+                acc_real += [Quad(*op[2][0], op[1])] if op[0] == "g" else [(Quad if op[0] == "q" else Triple)(*op[1])]
+        refuses = first_rej is not None and all("!" in t for t in data_toks[first_rej:])
+        verdict, evs, _ = parse_spec_response(sline)
+        want_st = [gen.normalize_stmt(s) for s in acc_real]
+        want = "_" if not want_st else " ".join("S" + stmt_text(s) for s in want_st)
+        if (verdict == "ok" and evs == want) or refuses:
+            continue
+        dirty = "~" in mraw
+        sig = "C20-state-after-rejection" if (dirty and mraw.replace("~", "") == line and first_rej is not None) else None
+        ctx.fail(f"stream corrupt after a rejected statement ({verdict})",
+                 dict(request=req, response=line[:1500], referee=sline[:1200], want=want[:1200]), known=sig)
